@@ -353,7 +353,7 @@ pub fn run(r: &Run) {
     r.set_rule(RULE);
     r.assume("the neighbour is driven by a shadow of PeerSession's export side that calls the daemon's own ExportMap / PendingTx / GroupedSink / process_nlri_change / register_peer / collect_loc_rib_paths_limited in the order on_established, handle_prefix_update and do_route_refresh use; sockets, keepalives and the FSM are not involved");
     r.assume("RTC filters and per-peer BMP taps are not generated");
-    r.prop("export-histories", r.tier.pick(40_000, 2_000_000), || arb_case(r.tier.pick(24, 48)), check);
+    r.prop("export-histories", r.tier.pick(120_000, 3_000_000), || arb_case(r.tier.pick(24, 48)), check);
 }
 
 pub fn replay(_sub: &str, case: &Value) -> Result<CheckResult, String> {
